@@ -143,7 +143,11 @@ def pollOracle (net : Nat) (before : PState) (afterNext : Nat) (afterTable : Tab
     match fin with
     | none => some s!"POLL-STORED-INVALID one of the {acc.length} newly stored certificates does not validate against the poller's table"
     | some (next, table) =>
-      if internal then none
+      if internal then
+        -- a store error ends the poll; whether the failing Put left its certificate behind or not, the poller
+        -- must not stand beyond what is stored
+        if afterNext > next then some s!"POLL-ADVANCE after a store error NextInstance {afterNext} is beyond the stored valid certificates, which end at {next}"
+        else none
       else if next != afterNext then some s!"POLL-ADVANCE NextInstance {afterNext} but the stored valid certificates end at {next}"
       else if table != afterTable then some "POLL-ADVANCE PowerTable is not the table after the stored certificates"
       else none
@@ -172,7 +176,9 @@ def pollOracleArr (net : Nat) (base : PState) (pre : Store) (afterNext : Nat) (a
     match walk with
     | none => some "POLL-STORED-INVALID a stored certificate does not validate in sequence from the poller's table"
     | some pts =>
-      if internal then none
+      if internal then
+        if pts.all (·.1 < afterNext) then some s!"POLL-ADVANCE after a store error NextInstance {afterNext} is beyond the stored valid certificates"
+        else none
       else match pts.find? (·.1 == afterNext) with
         | none => some s!"POLL-ADVANCE NextInstance {afterNext} is not between the catch-up point {base.next} and the end of the stored certificates"
         | some (_, t) => if t != afterTable then some s!"POLL-ADVANCE PowerTable is not the table of instance {afterNext} after the stored certificates" else none
